@@ -17,33 +17,33 @@ refinement proofs unfold), so the *driver* refuses trees in which a range could 
 elements instead of building it: literal bounds (after the model's constant folding) too far apart, or a
 bound taken from an environment that contains an integer beyond ±2e6. -/
 
-partial def hugeRange (dynHuge : Bool) : Node → Bool
+partial def hugeRange (lim : Int) (dynHuge : Bool) : Node → Bool
   | .binary _ op l r =>
     (op == ".." && (match l, r with
-      | .int _ a, .int _ b => b - a > 2000000
-      | .int _ a, _ => dynHuge || a < -2000000
-      | _, .int _ b => dynHuge || b > 2000000
-      | _, _ => dynHuge)) || hugeRange dynHuge l || hugeRange dynHuge r
-  | .unary _ _ x | .prop _ x _ _ | .closure _ x => hugeRange dynHuge x
-  | .matches _ _ l r | .index _ l r | .pair _ l r => hugeRange dynHuge l || hugeRange dynHuge r
-  | .slice _ x f t => hugeRange dynHuge x || (f.map (hugeRange dynHuge)).getD false || (t.map (hugeRange dynHuge)).getD false
-  | .method _ x _ args _ => hugeRange dynHuge x || args.any (hugeRange dynHuge)
-  | .func _ _ args _ | .builtin _ _ args | .array _ args | .map _ args => args.any (hugeRange dynHuge)
-  | .cond _ a b d => hugeRange dynHuge a || hugeRange dynHuge b || hugeRange dynHuge d
+      | .int _ a, .int _ b => b - a > lim
+      | .int _ a, _ => dynHuge || a < -lim
+      | _, .int _ b => dynHuge || b > lim
+      | _, _ => dynHuge)) || hugeRange lim dynHuge l || hugeRange lim dynHuge r
+  | .unary _ _ x | .prop _ x _ _ | .closure _ x => hugeRange lim dynHuge x
+  | .matches _ _ l r | .index _ l r | .pair _ l r => hugeRange lim dynHuge l || hugeRange lim dynHuge r
+  | .slice _ x f t => hugeRange lim dynHuge x || (f.map (hugeRange lim dynHuge)).getD false || (t.map (hugeRange lim dynHuge)).getD false
+  | .method _ x _ args _ => hugeRange lim dynHuge x || args.any (hugeRange lim dynHuge)
+  | .func _ _ args _ | .builtin _ _ args | .array _ args | .map _ args => args.any (hugeRange lim dynHuge)
+  | .cond _ a b d => hugeRange lim dynHuge a || hugeRange lim dynHuge b || hugeRange lim dynHuge d
   | _ => false
 
-partial def valHasHugeInt : Val → Bool
-  | .int _ n => n > 2000000 || n < -2000000
-  | .arr _ xs | .set _ xs => xs.any valHasHugeInt
-  | .map kvs | .struct _ _ kvs => kvs.any fun kv => valHasHugeInt kv.2
+partial def valHasHugeInt (lim : Int) : Val → Bool
+  | .int _ n => n > lim || n < -lim
+  | .arr _ xs | .set _ xs => xs.any (valHasHugeInt lim)
+  | .map kvs | .struct _ _ kvs => kvs.any fun kv => valHasHugeInt lim kv.2
   | _ => false
 
 /-- constant bounds become literals under the model's fold pass; the scan is done on the folded tree -/
-def refuseRange (env : Val) (n : Node) : Bool :=
+def refuseRange (env : Val) (n : Node) (lim : Int := 2000000) : Bool :=
   let folded := match Opt.repeatPass true (Opt.foldRule Opt.Flags.asWas (mkWorld [])) Opt.foldWalks n with
     | .ok n' => n'
     | .error _ => n
-  hugeRange (valHasHugeInt env) folded
+  hugeRange lim (valHasHugeInt lim env) folded
 
 /-- `(speceval <budget> (flags <rangeSigned> <sliceToFirst>) <cast|_> <env> <node>)` -/
 def handleSpec : List Sexp → Sexp
